@@ -829,7 +829,17 @@ impl Pos {
             if let Some(p) = m.promo {
                 s.push(kind_letter_upper(p));
             }
-            return vec![s];
+            // the fuller disambiguation: full source square (the library documents the source
+            // specifier as "" | file | rank | file+rank for every kind of piece)
+            let mut full = sq_name(m.from);
+            if cap {
+                full.push('x');
+            }
+            full.push_str(&dest);
+            if let Some(p) = m.promo {
+                full.push(kind_letter_upper(p));
+            }
+            return vec![s, full];
         }
         // other legal moves of the same kind of piece to the same destination
         let rivals: Vec<Mv> = legal
